@@ -16,11 +16,19 @@ TABLE = {
 PLAIN = ["cmd", "foo", "bar", "x1"]
 
 
+def trim_value(val):
+    """the value without its trailing blanks; a blank quoted by a backslash belongs to the value"""
+    t = val.rstrip(" \t")
+    if (len(t) - len(t.rstrip("\\"))) % 2 == 1 and len(t) < len(val):
+        t = val[:len(t) + 1]
+    return t
+
+
 def expand(name, active=()):
     """text that replaces alias [name] at command position, and whether the following word is examined too"""
     val = TABLE[name]
-    blank = val.endswith((" ", "\t"))
-    body = val.rstrip(" \t")
+    body = trim_value(val)
+    blank = len(body) < len(val)
     # the first word of the value is at command position again
     parts = body.split(" ", 1)
     first = parts[0].lstrip("\t")
@@ -173,6 +181,10 @@ class P:
              [("X L", "nice ls -l"), ("Y L", "nice ls -l"), ("P X L", "env nice ls -l"), ("{ X L; }", "{ nice ls -l; }"), ("V=1 X L", "V=1 nice ls -l"),
               ("XT L", "nice ls -l"), ("Q L", "env nice ls -l"), ("Z L", "nice ls -l"), ("P Y L L", "env nice ls -l L"), ("a | Y L", "a | nice ls -l"),
               ("X X L", "nice nice ls -l"), ("X Y L", "nice nice ls -l"), ("if X L; then Y L; fi", "if nice ls -l; then nice ls -l; fi")]),
+            # a blank quoted by a backslash at the end of a value is part of the value, not a trailing blank
+            ({"S": "echo \\ ", "T": "echo \\\t", "U": "echo \\\\ ", "N": "nice \\  ", "L": "ls -l", "B": "echo a\\"},
+             [("S tail", "echo \\  tail"), ("T x", "echo \\\t x"), ("U L", "echo \\\\ ls -l"), ("N L", "nice \\  ls -l"), ("S L", "echo \\  L"),
+              ("S", "echo \\ "), ("{ S; }", "{ echo \\ ; }"), ("B c", "echo a\\ c")]),
             ({"W": "while ", "T": "true", "I": "if ", "TH": "then ", "E": "echo hi"},
              [("W T; do T; done", "while true; do true; done"), ("I T; TH E; fi", "if true; then echo hi; fi"), ("I T; then E; fi", "if true; then echo hi; fi")]),
         ):
